@@ -60,7 +60,13 @@ CHECKS = {
         rule=ADV + "Oracle: no panic escapes a SHIP entry point, the bubble can end (no goroutine blocked for ever). non-trivial = a "
              "hostile message was delivered in state hello or later; distinct = hash of the script; classes = inject per (role, state)",
         runs=[dict(engine="shipsim", test="TestC08", quick=dict(checks=40000, shards=4, timeout=600),
-                   thorough=dict(checks=1600000, shards=16, timeout=3000))],
+                   thorough=dict(checks=1600000, shards=12, timeout=3000)),
+              # websocket level: arbitrary frames (text, binary of any length, fragments, ping/pong, close codes) and raw garbage
+              dict(engine="wsfault", test="TestC08WS", quick=dict(checks=4000, shards=2, timeout=600),
+                   thorough=dict(checks=200000, shards=2, timeout=3000)),
+              # mDNS level: hostile TXT maps / raw TXT items, names, hosts, address lists and ports through both entry paths
+              dict(engine="mdnssim", test="TestC08Mdns", quick=dict(checks=6000, shards=2, timeout=600),
+                   thorough=dict(checks=300000, shards=2, timeout=3000))],
     ),
     "C11": dict(
         level="exploration",
